@@ -129,7 +129,9 @@ def to_sympy(t, symbols):
             else:
                 r = sp.Function(name.replace('.', '_'))(*args)
         else:
-            raise NotClosedForm('op %s in a closed-form identity (unresolved condition?): %s' % (op, tm.show(u)[:200]))
+            ex = NotClosedForm('op %s in a closed-form identity (unresolved condition?): %s' % (op, tm.show(u)[:200]))
+            ex.term = u
+            raise ex
         cache[u] = r
         return r
     return go(t)
@@ -158,11 +160,27 @@ def zero_test(term, hyps, varmap, timeout_ms=20000):
     try:
         e = to_sympy(term, symbols)
     except NotClosedForm as ex:
-        return {'status': 'unknown', 'detail': str(ex), 'time_s': time.time() - t0}
+        u = getattr(ex, 'term', None)
+        split = None
+        if u is not None:
+            if u.op == 'ite':
+                split = u.args[0]
+            elif u.op in ('max', 'min'):
+                split = tm.ge(u.args[0], u.args[1])
+            elif u.op == 'abs':
+                split = tm.ge(u.args[0], tm.const(0, u.args[0].sort))
+        return {'status': 'unknown', 'detail': str(ex), 'time_s': time.time() - t0, 'split_on': split}
     # canonical ncdf atoms
     atoms = {}
-    for f in list(e.atoms(_Nf)):
+    for f in sorted(e.atoms(_Nf), key=sp.default_sort_key):
         arg = _canon(f.args[0])
+        if arg == 0:
+            e = e.xreplace({f: sp.Rational(1, 2)})
+            continue
+        neg_arg = _canon(-arg)
+        if arg not in atoms and neg_arg in atoms:
+            e = e.xreplace({f: 1 - atoms[neg_arg]})      # ncdf(-u) = 1 - ncdf(u)
+            continue
         if arg not in atoms:
             atoms[arg] = sp.Symbol('N%d' % len(atoms), positive=True)
         e = e.xreplace({f: atoms[arg]})
